@@ -208,3 +208,29 @@ func VH_C07_import_release() {
 	vAssert(t.sends == 1 && t.releaseCounts[0] == uint32(n) && t.releaseIDs[0] == uint32(id), "C07.import.one-release-with-the-exact-count")
 	vAssert(c.imports[id] == nil, "C07.import.entry-dropped")
 }
+
+// the generation race: the last local reference to an import is gone (its weak reference is dead)
+// but the table entry is still there when another descriptor for the same id arrives. The new
+// client must report every reference received so far.
+func VH_C07_import_generation() {
+	t := &vTransport{}
+	c := vNewConn(t, nil)
+	id := importID(vNondetU32())
+	n := 1 + vConcI(int(vNondetU8()), 3)
+	c.mu.Lock()
+	for i := 0; i < n; i++ {
+		c.addImport(id)
+	}
+	// emulate "weak reference dead, entry present": a weak reference to a released client
+	dead := capnp.NewClient(&vRecvHook{})
+	w := dead.WeakRef()
+	dead.Release()
+	c.imports[id].wc = w
+	fresh := c.addImport(id)
+	c.mu.Unlock()
+	vReach("imported")
+	vAssert(c.imports[id] != nil && c.imports[id].wireRefs == n+1, "C07.generation.all-received-references-counted")
+	fresh.Release()
+	vQuiescent(c, "C07.generation.release")
+	vAssert(t.sends == 1 && len(t.releaseCounts) == 1 && t.releaseCounts[0] == uint32(n+1), "C07.generation.release-reports-every-received-reference")
+}
